@@ -206,6 +206,11 @@ func verifyClientRequest(w http.ResponseWriter, r *http.Request) (errCode int, _
 }
 
 func authenticateOrigin(r *http.Request, originHosts []string) error {
+	// Header.Get would only look at the first of several Origin lines.
+	origins := r.Header.Values("Origin")
+	if len(origins) > 1 {
+		return fmt.Errorf("request has multiple Origin headers: %q", origins)
+	}
 	origin := r.Header.Get("Origin")
 	if origin == "" {
 		return nil
